@@ -114,7 +114,7 @@ static void op_decode(pv_rng* r, bool explicit_, bool armed) {
     if (g.s) pv_gstr_free(&g); else free(in);
 }
 static bool g_arm_next;     /* the next library call finds the allocator refusing one request, whatever the call is */
-static void arm(void) { if (g_arm_next) { pv_w->fail_countdown = 1; PV_COUNT("ops.non_constructor_with_failing_allocator", 1); } }
+static void arm(void) { if (g_arm_next) { pv_arm_some_request(); PV_COUNT("ops.non_constructor_with_failing_allocator", 1); } }
 static void disarm(void) { pv_w->fail_countdown = 0; g_arm_next = false; }
 static void op_crypt(pv_rng* r) {
     int i = live_slot(r); if (i < 0) return;
